@@ -334,8 +334,8 @@ func txSubmissionScenarios() []*scenario {
 func chainSyncOpts(limit int) func() []ouroboros.ConnectionOptionFunc {
 	return func() []ouroboros.ConnectionOptionFunc {
 		cfg := chainsync.NewConfig(
-			chainsync.WithRollForwardFunc(func(chainsync.CallbackContext, uint, any, chainsync.Tip) error { return nil }),
-			chainsync.WithRollBackwardFunc(func(chainsync.CallbackContext, pcommon.Point, chainsync.Tip) error { return nil }),
+			chainsync.WithRollForwardFunc(func(chainsync.CallbackContext, uint, any, chainsync.Tip) error { slowCallback(); return nil }),
+			chainsync.WithRollBackwardFunc(func(chainsync.CallbackContext, pcommon.Point, chainsync.Tip) error { slowCallback(); return nil }),
 			chainsync.WithPipelineLimit(limit),
 		)
 		return []ouroboros.ConnectionOptionFunc{ouroboros.WithChainSyncConfig(cfg)}
@@ -423,7 +423,16 @@ func chainSyncScenarios() []*scenario {
 			if ntn {
 				sm = &smBinding{chainsync.StateMapNtN, chainsync.NewMsgFromCborNtN, "Idle"}
 			}
-			return &scenario{Name: pfx + name, Proto: proto, ProtoID: id, Mode: mode, Calls: calls, Script: script, BadExtra: badExtra, Opts: chainSyncOpts(limit), SM: sm}
+			flood := rollForward(ntn, b0, tipA) // babbage: the largest small fixture
+			// a RollForward with an opaque 150 KB header / block (decodes as a message; four
+			// of them exceed 462000 bytes without reaching the receive queue's message count)
+			floodOpaque := raw("RollForward(opaque-150KB)", xcbor.A(xcbor.U(2), xcbor.Tg(24, xcbor.B(append([]byte{0x82, 0x07}, xcbor.B(make([]byte, 150000)).Encode()...))),
+				xcbor.A(xcbor.A(xcbor.U(b1.Slot+1000), xcbor.B(b1.Hash)), xcbor.U(2000))))
+			if ntn {
+				floodOpaque = raw("RollForward(opaque-150KB)", xcbor.A(xcbor.U(2), xcbor.A(xcbor.U(6), xcbor.Tg(24, xcbor.B(make([]byte, 150000)))),
+					xcbor.A(xcbor.A(xcbor.U(b1.Slot+1000), xcbor.B(b1.Hash)), xcbor.U(2000))))
+			}
+			return &scenario{Name: pfx + name, Proto: proto, ProtoID: id, Mode: mode, Calls: calls, Script: script, BadExtra: badExtra, Opts: chainSyncOpts(limit), SM: sm, Flood: []floodMsg{{wire: flood}, {wire: floodOpaque, IdleOnly: true}}}
 		}
 		out = append(out,
 			mk("GetCurrentTip", 0, []apiCall{cTip}, []ev{rq(4, "GetCurrentTip"), rInt("GetCurrentTip", foundOrigin)}),
@@ -475,13 +484,16 @@ func blockFetchScenarios() []*scenario {
 	done := enc("BatchDone", blockfetch.NewMsgBatchDone())
 	blk0 := fetchedBlock(b0)
 	blk1 := fetchedBlock(b1)
+	ebbFix := fixtures.ByName("byron_ebb") // 650 KB: four of them exceed the Streaming limit
+	ebb := fetchedBlock(blk{Block: ebbFix})
+	ebb.Kind = "Block(650KB)"
 	badBlock := raw("Block-undecodable", xcbor.A(xcbor.U(4), xcbor.Tg(24, xcbor.B([]byte{0x82, 0x07, 0x80}))))
 	badExtra := []wire{
 		enc("client-kind-ClientDone", blockfetch.NewMsgClientDone()),
 	}
 	opts := func() []ouroboros.ConnectionOptionFunc {
 		cfg, _ := blockfetch.NewConfig(
-			blockfetch.WithBlockFunc(func(blockfetch.CallbackContext, uint, ledger.Block) error { return nil }),
+			blockfetch.WithBlockFunc(func(blockfetch.CallbackContext, uint, ledger.Block) error { slowCallback(); return nil }),
 			blockfetch.WithBatchDoneFunc(func(blockfetch.CallbackContext) error { return nil }),
 		)
 		return []ouroboros.ConnectionOptionFunc{ouroboros.WithBlockFetchConfig(cfg)}
@@ -504,7 +516,8 @@ func blockFetchScenarios() []*scenario {
 	rDone := func(cn string) ev { return rp(cn, done, blk1, badBlock) }
 	mk := func(name string, calls []apiCall, script []ev) *scenario {
 		return &scenario{Name: "blockfetch/" + name, Proto: proto, ProtoID: id, Mode: modeNtN, Calls: calls, Script: script, BadExtra: badExtra, Opts: opts,
-			SM: &smBinding{blockfetch.StateMap, blockfetch.NewMsgFromCbor, "Idle"}}
+			SM:    &smBinding{blockfetch.StateMap, blockfetch.NewMsgFromCbor, "Idle"},
+			Flood: []floodMsg{{wire: blk1}, {wire: ebb}}}
 	}
 	return []*scenario{
 		mk("GetBlock", []apiCall{cGet}, []ev{rq(0, "GetBlock"), rStart("GetBlock"), rBlock("GetBlock", blk0), rDone("GetBlock")}),
